@@ -147,7 +147,8 @@ def run_sim(tier, repo, procs=16):
             t = tot["known"].setdefault(key, {"count": 0, "witness": None})
             t["count"] += k["count"]
             t["witness"] = t["witness"] or k["witness"]
-    if tot["continued"] < tot["n"] // 2:
+    if tot["continued"] < tot["n"] // 2 and tot["same"] > 0.9 * tot["n"]:
+        # (vacuity control for the unchanged tree; with a broken implementation chains break wherever the code leaves the model)
         raise T.MachineryError("%s: only %d of %d simulated calls continued a history on live objects" % (c["name"], tot["continued"], tot["n"]))
     tot.update(config=c, asrt=False, tlc=stats, families=list(SIM_FAMILIES), vectors=len(lines))
     return tot
